@@ -319,6 +319,7 @@ class Interp:
         self.builtins = self._make_builtins()
         self._stubs = None
         self.fstack = []
+        self.model_caches = True
         self.funcs_seen = set()
         self.max_steps = None
 
@@ -466,6 +467,7 @@ class Interp:
     def make_func(self, node, m, env, owner):
         kind = "plain"
         unknown = None
+        memo = False
         for d in node.decorator_list:
             u = ast.unparse(d)
             if u == "property":
@@ -476,13 +478,16 @@ class Interp:
                 kind = "classmethod"
             elif u == "staticmethod":
                 kind = "staticmethod"
-            elif ("lru_cache" in u or u.endswith("abstractmethod") or u.endswith(".setter") or u.split("(")[0].split(".")[-1] in
-                  ("cache", "overload", "final", "override", "no_type_check")):
+            elif "lru_cache" in u or u.split("(")[0].split(".")[-1] == "cache":
+                memo = True
+            elif (u.endswith("abstractmethod") or u.endswith(".setter") or u.split("(")[0].split(".")[-1] in
+                  ("overload", "final", "override", "no_type_check")):
                 pass
             else:
                 unknown = u
         f = Func(node, m, env, owner, kind)
         f.unknown_deco = unknown
+        f.memo = {} if memo else None
         return f
 
     def make_class(self, node, m, env):
@@ -1208,6 +1213,12 @@ class Interp:
         except KeyError:
             raise PyRaise(BuiltinExcValue(EXC["KeyError"], (idx,)))
 
+    def e_Slice(self, n, env, m):
+        lo = self.eval(n.lower, env, m) if n.lower else None
+        hi = self.eval(n.upper, env, m) if n.upper else None
+        st = self.eval(n.step, env, m) if n.step else None
+        return slice(lo, hi, st)
+
     def _comp(self, gens, env, m, emit):
         def rec(i, e):
             if i == len(gens):
@@ -1322,6 +1333,20 @@ class Interp:
         ov = self.overrides.get(func.module.name + ":" + func.qualname)
         if ov is not None:
             return ov(*args, **kwargs)
+        if getattr(func, "memo", None) is not None and self.model_caches:
+            # functools.lru_cache / cache: keyed by the arguments' __hash__ and __eq__ (interpreted), results shared
+            keyargs = list(args) + [v for _, v in sorted(kwargs.items())]
+            hk = tuple(self.py_hash(a) for a in keyargs)
+            bucket = func.memo.setdefault(hk, [])
+            for kargs, val in bucket:
+                if len(kargs) == len(keyargs) and all(self.py_eq(x, y) for x, y in zip(kargs, keyargs)):
+                    return val
+            val = self._call_func_body(func, args, kwargs)
+            bucket.append((keyargs, val))
+            return val
+        return self._call_func_body(func, args, kwargs)
+
+    def _call_func_body(self, func, args, kwargs):
         node = func.node
         a = node.args
         env = Env(func.closure)
@@ -1424,6 +1449,18 @@ class Interp:
             self._reraise_native(e)
 
     def _pymethod(self, obj, name, args, kwargs):
+        if isinstance(obj, list) and name == "remove":
+            for i, x in enumerate(obj):
+                if self.py_eq(x, args[0]):
+                    del obj[i]
+                    return None
+            raise PyRaise(BuiltinExcValue(EXC["ValueError"], ("list.remove(x): x not in list",)))
+        if isinstance(obj, list) and name in ("clear", "reverse"):
+            return getattr(obj, name)()
+        if isinstance(obj, list) and name == "sort":
+            items = self.b_sorted(obj, **kwargs)
+            obj[:] = items
+            return None
         if isinstance(obj, list) and name in ("append", "extend", "insert", "pop", "index", "count", "copy"):
             if name == "extend":
                 obj.extend(self.iterate(args[0]))
@@ -1515,6 +1552,8 @@ class Interp:
 
     def b_isinstance(self, x, c):
         c = self.resolve(c)
+        if isinstance(x, Sym) and getattr(x, "strict_isinstance", False):
+            raise AnalysisError(f"isinstance() inspects the symbolic value {x!r}: the code is no longer parametric in it")
         if isinstance(c, tuple) and not (c and c[0] in ("builtin", "lazy")):
             return any(self.b_isinstance(x, y) for y in c)
         if isinstance(c, ClassInfo):
@@ -1572,6 +1611,8 @@ class Interp:
             return ("v", x.rank)
         if isinstance(x, (list, dict, set, ASet)):
             raise PyRaise(BuiltinExcValue(EXC["TypeError"], ("unhashable",)))
+        if isinstance(x, (ClassInfo, Func, External, Native, Sym)):
+            return ("id", id(x))
         return ("c", x)
 
     def b_iter(self, x):
